@@ -196,3 +196,45 @@ def outcome_class(ret):
     if ret[0] == "diverge":
         return ("PANIC", ret[1])
     return ("?", vs(ret))
+
+
+def symbolic_arg(f, it, st, ty_id, name, depth=3):
+    """a symbolic argument shaped by its type: references allocate their pointee, crate-local structs get one
+    named symbol per field (so that field order does not matter), everything else is one opaque symbol"""
+    t = f.ty(ty_id)
+    if t["k"] == "ref":
+        return ("ref", st.alloc(symbolic_arg(f, it, st, t["inner"], name, depth)))
+    if t["k"] == "adt" and depth > 0:
+        a = f.adts.get(t["adt"])
+        if a and a["local"] and a["kind"] == "struct":
+            var = a["variants"][0]
+            fields = []
+            for fl in var["fields"]:
+                fname = "%s.%s" % (name, fl["name"])
+                if "ty" in fl:
+                    fields.append(symbolic_arg(f, it, st, fl["ty"], fname, depth - 1))
+                else:
+                    fields.append(("sym", fname))
+            return ("adt", t["adt"], var["name"], tuple(fields))
+    return ("sym", name)
+
+
+def summarize_fn(f, path, arg_names=None, overrides=None, opaque=None):
+    """run a body with symbolic arguments; -> (list of (conds, ret string, state, raw ret), interp)"""
+    from norm import norm, norm_cond, show
+    b = f.bodies[path]
+    it = Interp(f, opaque=opaque)
+    st = State()
+    args = []
+    for i in range(b["arg_count"]):
+        l = b["locals"][i + 1]
+        nm = (arg_names[i] if arg_names and i < len(arg_names) else None) or l.get("name") or "a%d" % i
+        if overrides and nm in overrides:
+            args.append(overrides[nm](it, st))
+        else:
+            args.append(symbolic_arg(f, it, st, l["ty"], nm))
+    res = it.run(path, args, st)
+    outs = []
+    for s, rv in res:
+        outs.append((tuple(sorted(set(norm_cond(c) for c in s.conds))), show(norm(it.resolve(s, rv))), s, rv))
+    return outs, it
